@@ -116,6 +116,25 @@ def injector_cases():
     add('mixed-having', 'SELECT i, count(*) FROM #t GROUP BY i HAVING sum(j) + 1 > 1', A)
     add('mixed-order-by', 'SELECT i, count(*) FROM #t GROUP BY i ORDER BY sum(j) + i', R)
     add('mixed-order-by', 'SELECT i, count(*) FROM #t GROUP BY i ORDER BY sum(j) + 1', A)
+    # the aggregate rules see an aggregate (and a bare column) in EVERY operand position of every composite form
+    forms = ['j BETWEEN 0 AND {a}', 'j BETWEEN {a} AND 100', '{a} BETWEEN 0 AND j', '{a} BETWEEN j AND 100', 'coalesce(j, {a}) > 1', 'coalesce({a}, j) > 1',
+             '({a} > 1) AND (j > 1)', '(j > 1) OR ({a} > 1)', 'NOT ({a} > j)', '({a} + j) IS NULL', '({a} - j) IS NOT NULL', '-({a}) + j > 0', 'length(str({a})) + j > 0',
+             'j IN (SELECT i FROM #t WHERE i < 3) AND {a} > 0', 'round(1.5 * j, {a}) > 1', 'safediv(1.5 * j, {a}) > 1']
+    for form in forms:
+        for agg in ('max(j)', 'count(*)'):
+            f = form.format(a=agg)
+            add('aggregate-in-where/operand-position', f'SELECT i FROM #t WHERE {f}', R)
+            add('aggregate-in-group-key/operand-position', f'SELECT count(*) FROM #t GROUP BY {f}', R)
+            add('mixed-target/operand-position', f'SELECT {f} FROM #t', R)
+            add('mixed-having/operand-position', f'SELECT i, count(*) FROM #t GROUP BY i HAVING {f}', R)
+            add('mixed-order-by/operand-position', f'SELECT i, count(*) FROM #t GROUP BY i ORDER BY {f}', R)
+            add('aggregate-of-aggregate/operand-position', f'SELECT count({f}) FROM #t', R)
+            # the same form over the aggregate and constants / grouped columns only is a legitimate aggregate expression
+            pure = form.format(a=agg).replace('j', '5').replace('max(5)', 'max(j)')
+            if 'SELECT' not in form:
+                add('aggregate-expression/operand-position', f'SELECT {pure} FROM #t', A)
+                add('aggregate-expression/operand-position', f'SELECT i, {pure} FROM #t GROUP BY i', A)
+                add('aggregate-expression/operand-position', f'SELECT i, count(*) FROM #t GROUP BY i HAVING {pure}', A)
     add('uncovered-target', 'SELECT i, j, count(*) FROM #t GROUP BY i', R)
     add('uncovered-target', 'SELECT i, s FROM #t GROUP BY i', R)
     add('uncovered-target', 'SELECT i, count(*) FROM #t GROUP BY j', R)
